@@ -515,6 +515,17 @@ var nearEqualConstPrograms = []string{
 	`['2020-01-01 00:00:00', '2020-01-01T00:00:00'][1] == '2020-01-01 00:00:00'`,
 }
 
+// powers at the edges of what an integer fast path, a loop over the bits of the exponent or a
+// conversion to int64 can get wrong (all results exactly representable: 0, 1, ±Inf, or exact)
+var powBoundaryPrograms = []string{
+	`2 ^ (0 - 9223372036854775808)`, `2 ^ 9223372036854775807`, `10 ^ (0 - 9223372036854775808)`, `1 ^ (0 - 9223372036854775808)`,
+	`2 ^ (0 - 9223372036854775807)`, `0.5 ^ 9223372036854775808`, `(0 - 1) ^ 9007199254740992`, `(0 - 1) ^ 9007199254740993`,
+	`2 ^ (0 - 1e300)`, `2 ^ 1e300`, `1 ^ 1e300`, `0 ^ 0`, `0 ^ (0 - 1)`, `(0 - 8) ^ (1 / 3)`, `4 ^ 0.5`, `2 ^ 10`, `2 ^ (0 - 2)`, `2 ^ 1024`,
+	`2 ^ 1023 * 2`, `2 ^ (0 - 1074)`, `2 ^ (0 - 1075)`, `n2 ^ (0 - 9223372036854775808)`, `(1 / 0) ^ 0`, `(0 / 0) ^ 0`, `1 ^ (0 / 0)`,
+	`9223372036854775807 % 2`, `(0 - 9223372036854775808) % 3`, `7 % (0 - 9223372036854775808)`, `abs(0 - 9223372036854775808)`,
+	`round(9223372036854775807)`, `floor(0 - 9223372036854775808.5)`, `xs[9223372036854775807]`, `get(xs, 0 - 9223372036854775808, 1)`,
+}
+
 var optionalPrograms = []string{
 	`[mb] == [mb2]`, `[mb] != [mb2]`, `[mb2] == [mb]`, `["k": mb] == ["k": mb2]`, `{x: mb} == {x: mb2}`, `om == om2`, `om != om2`,
 	`[om] == [om2]`, `[om.p] == [om2.p]`, `[ms] == [ms]`, `[[mb], [mb2]] == [[mb2], [mb]]`, `len(union([mb], [mb2]))`, `len(intersect([mb], [mb2]))`,
@@ -541,6 +552,9 @@ func init() {
 			}
 			for _, p := range nearEqualConstPrograms {
 				cs = append(cs, evalCases(eng, envFamily, vals, p, "prog:near-equal-constants")...)
+			}
+			for _, p := range powBoundaryPrograms {
+				cs = append(cs, evalCases(eng, envFamily, vals, p, "prog:pow-boundary")...)
 			}
 			// optionals that are never consumed: equality, containers, set functions and string
 			// conversion over present and absent values of one optional type (several draws, so
